@@ -96,12 +96,12 @@ prop("C19", [
     assumptions=["yaml-rust's loader and the big key-dispatch match of load_config_from_string are not under contract (external parser; closure/iterator heavy)",
                  "str_prefix*/parse_routes/parse_prefix error paths repaired by fix commits but their bodies (split/parse/collect chains) are not under contract"])
 prop("C20", [
-    dict(engine="verus", unit="httpd", fns=["lease_entries", "json_string"]),
+    dict(engine="verus", unit="httpd", fns=["lease_entries", "json_string", "publish_gauges"]),
     dict(POOL_B, checks=["sql_metrics", "sql_list"]),
 ], explanation="listing: one formatted entry per row returned by get_leases (Verus, slice of serve_leases); gauge query and listing query against the row set, bounded exhaustive on real SQLite",
     assumptions=["JSON validity is decided for the host name (json_string, every input string); the other fields are an Ipv4Addr, hex digits and integers rendered by core::fmt (outside Verus): their text and the punctuation of the surrounding format strings are NOT decided",
                  "format!(\"\\\\u{:04x}\", n) for n < 0x20 yields \\u followed by four lower-case hex digits (assumed)",
-                 "update_metrics gauge wiring (async, prometheus) not under contract"])
+                 "update_metrics: the two prometheus gauges are stubs that know which one they are; that DHCP_ACTIVE_LEASES / DHCP_EXPIRED_LEASES are registered under the documented names is not decided"])
 
 prop("C02", [
     dict(engine="verus", unit="dhcpranges"),
